@@ -2,7 +2,7 @@
    Statements only; proofs in Proofs/WorldInv.v. *)
 From stdpp Require Import gmap.
 From Coq Require Import ZArith NArith.
-From NSG Require Import Model.World Model.Load Proofs.WorldStep Proofs.WorldInv.
+From NSG Require Import Model.Coord Proofs.CoordViews Model.World Model.Load Model.Game Proofs.WorldStep Proofs.WorldInv Proofs.InitViewFacts Proofs.Game.
 
 (* one step: the monotone parts of the view never shrink (networks, hosts, controlled hosts,
    data per host, blocks per host) *)
@@ -43,9 +43,69 @@ Proof.
     + intros h K d HK. rewrite lookup_empty in HK. discriminate.
 Qed.
 
+(* the whole game (Model/Game.v: the coordinator model running on the world model): in every reachable state - any number
+   of agents, any interleaving of joins, actions, departures, faults, rewards and resets - the stored view of every agent
+   is well formed and anchored in the current world, provided the configured start positions are well formed and anchored
+   in the scenario (sp_ok) and the random start hosts are hosts of the scenario (Proofs/CoordViews.v, Proofs/Game.v) *)
+Theorem C11_whole_game : forall (sp : role -> start_pos) (goal : role -> view -> bool) (detect : list gaction -> gaction -> bool)
+    (cfg : config) (W0 : gworld) (ls : list (@label gaction)) (s : @state view gworld gaction),
+  GQ sp W0 ->
+  @execs view gworld gaction g_wstep g_wreset (g_winit sp) goal detect cfg (init_state W0) ls = Some s ->
+  forall c a, alookup c (agents s) = Some a -> wf_view (a_view a) /\ anchored (fst (Coord.world s)) (a_view a).
+Proof. exact game_views_ok. Qed.
+
+(* the lifting principle behind it, for any relation between world and view that the world model keeps *)
+Theorem C11_lifting : forall (V W G : Type) (wstep : W -> V -> G -> W * V) (wreset : W -> W) (winit : W -> role -> W * V)
+    (goal : role -> V -> bool) (detect : list G -> G -> bool) (cfg : config) (Q : W -> Prop) (P : W -> V -> Prop),
+  (forall w v a, Q w -> Q (fst (wstep w v a))) -> (forall w, Q w -> Q (wreset w)) -> (forall w r, Q w -> Q (fst (winit w r))) ->
+  (forall w v a, Q w -> P w v -> P (fst (wstep w v a)) (snd (wstep w v a))) ->
+  (forall w v u a, Q w -> P w u -> P w v -> P (fst (wstep w u a)) v) ->
+  (forall w r, Q w -> P (fst (winit w r)) (snd (winit w r))) ->
+  (forall w r v, Q w -> P w v -> P (fst (winit w r)) v) ->
+  forall w ls (s : @state V W G), Q w -> @execs V W G wstep wreset winit goal detect cfg (init_state w) ls = Some s ->
+  VI Q P s.
+Proof. exact @VI_reachable. Qed.
+
+(* non-vacuity: a concrete scenario and start position satisfy the hypotheses, and a run of the whole game reaches a
+   state with a joined agent that has played one action *)
+Example C11_whole_game_nonvacuous :
+  let w0 := {| w_ip2host := {[1%N := 10%N; 2%N := 20%N]}; w_nets := ∅; w_services := ∅; w_data := ∅;
+               w_fw := {[1%N := {[2%N]}]}; w_blocks := ∅; w_data0 := ∅; w_fw0 := {[1%N := {[2%N]}]} |} in
+  let sp := fun _ : role => {| sp_nets := []; sp_hosts := [2%N]; sp_ctrl := [SHost 1%N]; sp_svcs := []; sp_data := [] |} in
+  let cfg := Build_config 1 (fun _ => Some 5) (-1)%Z 100%Z (-10)%Z (fun _ => true) false in
+  GQ sp (w0, []) /\ pristine w0 /\
+  match @execs view gworld gaction g_wstep g_wreset (g_winit sp) (fun _ _ => false) (fun _ _ => false) cfg (init_state (w0, []))
+          [LConnect 1%N; LArrive 1%N (CMsg (MJoin (Some (7%N, Some RAttacker)))); LRun (TConn 1%N); LRun TDispatch; LRun (THandler 0);
+           LRun (TConn 1%N); LArrive 1%N (CMsg (MGame (AScan 1%N (0%N, 0%N)) true)); LRun (TConn 1%N); LRun TDispatch; LRun (THandler 1)] with
+  | Some s => match alookup 1%N (agents s) with
+              | Some a => bool_decide (1%N ∈ v_ctrl (a_view a)) = true /\ a_steps a = 1
+              | None => False
+              end
+  | None => False
+  end.
+Proof.
+  split; [|split].
+  - split; [|split].
+    + constructor.
+      * intros i Hi. exfalso. apply elem_of_elements in Hi. revert Hi. match goal with |- _ ∈ ?l -> _ => assert (E : l = []) by (vm_compute; reflexivity); rewrite E end. intros Hi. inversion Hi.
+      * intros n. reflexivity.
+    + constructor.
+    + intros r. constructor; simpl.
+      * intros h [<-|[]]. vm_compute. eauto.
+      * intros h [[= <-]|[]]. vm_compute. eauto.
+      * intros h l [].
+      * intros h l [].
+      * intros h l s [].
+      * intros h l d [].
+  - repeat split.
+  - vm_compute. split; reflexivity.
+Qed.
+
 Print Assumptions C11_mono_step.
 Print Assumptions C11_wf_step.
 Print Assumptions C11_exists_step.
 Print Assumptions C11_exists_others.
 Print Assumptions C11_invariant.
 Print Assumptions C11_mono.
+Print Assumptions C11_whole_game.
+Print Assumptions C11_lifting.
